@@ -1,7 +1,7 @@
 """C11 -- batch results align with inputs and do not depend on batch history."""
 import ast
 
-from ..core import AnalysisError, src, qualname_of
+from ..core import AnalysisError, src, qualname_of, src_ref
 from ..pysym import SymExec, show, subterms, all_calls, terms_of
 from ..rules_pyx import N, C, A
 from .. import logic
@@ -36,7 +36,7 @@ def r_validation(repo, rep, R='R11.1'):
             first = ev[0] if ev else None
             break
         tc = ('call', N('_type_check'), (N('doc'), N('score_results'), N('categories')), ())
-        rebinds = any(isinstance(s, ast.Assign) and src(s.value) == '_type_check(doc, score_results, categories)' and src(s.targets[0]).replace('(', '').replace(')', '') == 'doc, score_results'
+        rebinds = any(isinstance(s, ast.Assign) and src_ref(s.value) == '_type_check(doc, score_results, categories)' and src(s.targets[0]).replace('(', '').replace(')', '') == 'doc, score_results'
                       for s in fn.body)
         rep.check(first is not None and first[0] == 'call' and first[1] == tc and rebinds, R, '%s:%s %s' % (REL, fn.lineno, fname), '%s:validated-first' % fname,
                   '%s validates (doc, score_results, categories) before anything else and continues with the validated values' % fname,
